@@ -542,6 +542,19 @@ def explore_c06(rng, tier, res, deep=False):
             for other in ("@.z", "$.x", "@.emp", "@.missing", "length(@.emp)", "count(@.missing)", "value(@.z)"):
                 cases.append((f"$.rows[?{fnf} {op} {other}]", fdoc))
                 cases.append((f"$.rows[?{other} {op} {fnf}]", fdoc))
+    # an INTEGER against a FLOAT where converting the integer to a float would round it (beyond 2^53), equal pairs just
+    # below, huge integers no float can hold, at the top and nested: numbers compare by their exact mathematical value
+    big_pairs = [(2**53 + 1, float(2**53)), (2**53, float(2**53)), (2**53 - 1, float(2**53)), (10**23, 1e23), (10**22, 1e22), (-(2**53) - 1, -float(2**53)),
+                 (2**63 + 1, float(2**63)), (2**64, float(2**64)), (10**400, 1e308), (-(10**400), -1e308), (3 * 10**22 + 1, 3e22), (9007199254740993, 9007199254740994.0),
+                 (123456789012345678, 1.2345678901234568e17), (2**53 + 1, 2**53 + 2), (1, 1.0000000000000002)]
+    for a, b in big_pairs:
+        for x, y in ((a, b), (b, a)):
+            for wrap in (lambda v: v, lambda v: [v], lambda v: {"k": [1, v]}):
+                bdoc = [{"a": wrap(x), "b": wrap(y)}]
+                for op in OPS:
+                    cases.append((f"$[?@.a {op} @.b]", bdoc))
+                cases.append(("$[?value(@.a) >= @.b]", bdoc))
+                cases.append(("$[?@.a == $[0].b]", bdoc))
     # near-miss pairs: a random value against a copy that differs by ONE small edit (a renamed member, a leaf of
     # another kind with a "similar" value, a reordered object, an equal int/float, a dropped element, null vs missing)
     npairs = 4000 if tier == "thorough" else (900 if deep else 350)
@@ -1107,9 +1120,63 @@ def explore_c18(rng, tier, res, deep=False):
         res.count(f"limit-{lim}", len(cases))
     deepen_in_place(rng, tier, res)
     limit_changed_between_applications(res)
+    instances_with_their_own_limits(res)
     import checks_nd
 
     checks_nd.explore_c18_nd(rng, tier, res, deep)
+
+
+def instances_with_their_own_limits(res):
+    """The bound is the one configured on THE environment that is asked: several instances of one class (the stock class,
+    a subclass), each given its own max_recursion_depth as an instance attribute, and the module-level default
+    environment, all handed the same query TEXTS one after the other, in both orders, both modes."""
+    import jsonpath_rfc9535 as jp
+
+    def nested(d):
+        v = {"a": 1}
+        for _ in range(d - 1):
+            v = {"a": v}
+        return v
+
+    for nd in (False, True):
+        for base in (jp.JSONPathEnvironment, type("Sub", (jp.JSONPathEnvironment,), {})):
+            for order in ((5, 300), (300, 5), (2, 3, 4), (4, 3, 2)):
+                envs = []
+                for lim in order:
+                    e = base()
+                    e.max_recursion_depth = lim
+                    e.nondeterministic = nd
+                    envs.append((lim, e))
+                for q in ("$..a", "$.a..a", "$[?@..a]", "$..[?@.a]"):
+                    for lim, e in envs:
+                        for depth in (lim, lim + 2):
+                            doc = nested(depth)
+                            eff = depth - 1 if q in ("$.a..a", "$[?@..a]") else depth
+                            want_ok = eff <= lim
+                            for label, fn in (("env.find", lambda: e.find(q, doc)), ("env.compile().find", lambda: e.compile(q).find(doc)), ("env.find_one", lambda: [e.find_one(q, doc)]),
+                                              ("list(env.finditer)", lambda: list(e.finditer(q, doc)))):
+                                res.evaluations += 1
+                                try:
+                                    fn()
+                                    got = "ok"
+                                except jp.JSONPathRecursionError:
+                                    got = "rec"
+                                except RecursionError:
+                                    got = "PY:RecursionError"
+                                except Exception as exc:  # noqa: BLE001
+                                    got = "PY:" + type(exc).__name__
+                                if label == "env.find_one" and not want_ok:
+                                    continue  # the first node may come before the too-deep part is reached
+                                if (got == "ok") != want_ok or (not want_ok and got != "rec"):
+                                    res.violations.append({"property": "C18", "query": q, "document": doc, "observed": got,
+                                                           "expected": "full result" if want_ok else "JSONPathRecursionError",
+                                                           "env": {"class": base.__name__, "max_recursion_depth (instance attribute)": lim, "nondeterministic": nd,
+                                                                   "other instances of the class, asked the same text before": [l for l, _ in envs if l != lim]},
+                                                           "history": f"instances of one class with limits {list(order)}, each asked the same query texts in turn; this is {label} on the instance with limit {lim}",
+                                                           "what": "the bound used is not the max_recursion_depth configured on the environment that was asked"})
+                                    return
+                    res.nontrivial.add(("instances-own-limits", nd, base.__name__, order, q))
+    res.count("instances-with-their-own-limits")
 
 
 def limit_changed_between_applications(res):
